@@ -196,8 +196,9 @@ impl ByteCompiler<'_> {
 
         // For let/const with a local identifier binding, emit iterator_value
         // directly into the binding's persistent register to avoid a Move.
-        if let IterableLoopInitializer::Let(Binding::Identifier(ident))
-        | IterableLoopInitializer::Const(Binding::Identifier(ident)) = for_in_loop.initializer()
+        let handler_index = if let IterableLoopInitializer::Let(Binding::Identifier(ident))
+        | IterableLoopInitializer::Const(Binding::Identifier(ident)) =
+            for_in_loop.initializer()
             && let ident = ident.to_js_string(self.interner())
             && let binding = self.lexical_scope.get_identifier_reference(ident)
             && binding.local()
@@ -205,9 +206,12 @@ impl ByteCompiler<'_> {
             let reg = self.register_allocator.alloc_persistent();
             self.local_binding_registers.insert(binding, reg.index());
             self.bytecode.emit_iterator_value(reg.variable());
+
+            self.push_handler()
         } else {
             let value = self.register_allocator.alloc();
             self.bytecode.emit_iterator_value(value.variable());
+            let handler_index = self.push_handler();
 
             match for_in_loop.initializer() {
                 IterableLoopInitializer::Identifier(ident) => {
@@ -246,9 +250,29 @@ impl ByteCompiler<'_> {
             }
 
             self.register_allocator.dealloc(value);
-        }
+            handler_index
+        };
 
         self.compile_stmt(for_in_loop.body(), use_expr, true);
+
+        // An exception leaving the loop must take the loop's iterator record off the frame's
+        // iterator stack, otherwise an enclosing loop would continue with this one's iterator.
+        {
+            let exit = self.jump();
+            self.patch_handler(handler_index);
+
+            let error = self.register_allocator.alloc();
+            self.bytecode.emit_exception(error.variable());
+
+            let handler_index = self.push_handler();
+            self.iterator_close(false);
+            self.patch_handler(handler_index);
+
+            self.bytecode.emit_throw(error.variable());
+            self.register_allocator.dealloc(error);
+            self.patch_jump(exit);
+        }
+
         self.pop_declarative_scope(outer_scope);
 
         self.bytecode.emit_jump(start_address);
